@@ -209,7 +209,9 @@ def body_flow(ctx, framing="chunked", compressed=False, corrupt=False, chunkings
         resident = content._size
         # identity: one delivered segment lands in the buffer whole; stub-compressed: each decompress
         # call adds at most max_length (= limit) and the loop stops once the reader is over its high mark
-        bound = 2 * limit + (limit if compressed else 0) + (seen["max_seg"] if not compressed else limit)
+        # (read(n) re-derives the reader's marks from n: the limit that counts is the live one)
+        eff = max(limit, getattr(content, "_low_water", limit))
+        bound = 2 * eff + (eff if compressed else 0) + (seen["max_seg"] if not compressed else eff)
         if not lifted["v"] and resident > bound:
             return fail("decoded-bytes-resident-above-bound", resident=resident, bound=bound)
         if loop.exc:
